@@ -165,11 +165,6 @@ HashKeyB(v) ==
     [] v.t = "arr" -> ArrV(v.et, [i \in 1..Len(v.xs) |-> HashKeyB(v.xs[i])])
     [] OTHER -> v
 
-\* ---------------------------------------------------------------- laws (C16), over a finite universe U
-Trichotomy(U, C(_, _))   == \A a, b \in U : C(a, b) \in {-1, 0, 1} /\ C(a, b) = -C(b, a)
-Reflexive(U, C(_, _))    == \A a \in U : C(a, a) = 0
-Transitive(U, C(_, _))   == \A a, b, c \in U : (C(a, b) <= 0 /\ C(b, c) <= 0) => C(a, c) <= 0
-EqIsCmp0(U, C(_, _), E(_, _)) == \A a, b \in U : E(a, b) <=> C(a, b) = 0
-EqHash(U, E(_, _), H(_)) == \A a, b \in U : E(a, b) => H(a) = H(b)
-NumbersByValue(U, C(_, _)) == \A a, b \in U : (IsNum(a) /\ IsNum(b)) => C(a, b) = CmpNum(a, b)
+\* The laws of C16 (trichotomy, transitivity, equality = order, equal => same hash, numbers by value) are
+\* stated per triple of values in MC_Values.tla and checked by TLC over the boundary universe defined there.
 =============================================================================
